@@ -153,7 +153,10 @@ def _byte(bs, i):
     return bs[i]
 
 
-def ref_load(bs, limit=2048):
+MAX_ALLOC = 1 << 40
+
+
+def ref_load(bs, limit=2048, max_alloc=None):
     """Classify the template bs (list of 0..255 or SYM). Well-formedness per RFC 8949 + libcbor profile."""
     n = len(bs)
     if n == 0:
@@ -220,6 +223,10 @@ def ref_load(bs, limit=2048):
         elif mt in (2, 3):
             node = dict(kind=X_IBSTR if mt == 2 else X_ITSTR, w=0, n=0, off=-1, argw=0)
             opener = dict(kind=node["kind"], remaining=None, parity=0)
+        elif mt in (4, 5) and ai != 31 and arg * (8 if mt == 4 else 16) > (max_alloc or MAX_ALLOC):
+            # the backing store of this definite container cannot exist (its byte size overflows size_t or exceeds anything an allocator grants):
+            # the allocation is necessarily refused -> MEMERROR just past this head (property C05, third clause)
+            return fail(E_MEMERROR, end)
         elif mt == 4:
             if ai == 31:
                 node = dict(kind=X_IARR, w=0, n=0, off=-1, argw=0)
@@ -477,7 +484,7 @@ def c_case(idx, sk, limit=2048, truncations=True, suffix=0):
     outs = []
     rng = sk.get("truncs", range(0, n + 1)) if truncations else [n]
     for t in rng:
-        ot = o if t == n else ref_load(bs[:t], limit)
+        ot = o if t == n else ref_load(bs[:t], limit, sk.get("max_alloc"))
         if ot.ok:
             outs.append("{%d,1,%d,0,{{0,0},{0,0},{0,0}}}" % (t, ot.read))
         else:
@@ -838,7 +845,8 @@ def huge_family():
     }
     fam = []
     for name, bs in raws.items():
-        fam.append(dict(name="huge:" + name, bytes=bs, toks=[tok("raw", bytes=bs)], outcome=Outcome(False, allowed={(E_MEMERROR, 0)}), truncs=[len(bs)], in_S=False, nheads=1, status="error", k=0))
+        # expected outcomes under an allocator that refuses requests above 4096 bytes (alloc.h recording mode)
+        fam.append(dict(name="huge:" + name, bytes=bs, toks=[tok("raw", bytes=bs)], outcome=ref_load(bs, 2048, 4096), truncs=list(range(0, len(bs) + 1)), in_S=False, nheads=1, status="error", k=0, max_alloc=4096))
     return fam
 
 
